@@ -45,6 +45,38 @@ struct rec_t
     std::size_t max_array_size() const noexcept { return verif_leaf_max(id, 1); }
     std::size_t max_alignment() const noexcept { return verif_leaf_max(id, 2); }
 };
+// minimal RawAllocator: only the two mandatory members; allocator_traits supplies arrays and the maxima
+struct minrec
+{
+    using is_stateful = std::true_type;
+    ulong id;
+    explicit minrec(ulong i = 1) noexcept : id(i) {}
+    void* allocate_node(std::size_t s, std::size_t a)
+    {
+        void* p = verif_leaf_alloc(id, 0, 1, s, a);
+        if (!p) FOONATHAN_THROW(out_of_memory(allocator_info("verif::minrec", this), s));
+        return p;
+    }
+    void deallocate_node(void* p, std::size_t s, std::size_t a) noexcept { verif_leaf_dealloc(id, 0, p, 1, s, a); }
+};
+// standard-library style Allocator (value_type, allocate(n), deallocate(p, n)): allocator_traits rebinds it to char and
+// forwards sizes in bytes; such an allocator guarantees fundamental alignment only (recorded as 16)
+template <typename T>
+struct stdrec
+{
+    using value_type = T;
+    ulong id;
+    explicit stdrec(ulong i = 1) noexcept : id(i) {}
+    template <typename U>
+    stdrec(const stdrec<U>& o) noexcept : id(o.id) {}
+    T* allocate(std::size_t n)
+    {
+        void* p = verif_leaf_alloc(id, 0, 1, n * sizeof(T), 16);
+        if (!p) FOONATHAN_THROW(out_of_memory(allocator_info("verif::stdrec", this), n));
+        return static_cast<T*>(p);
+    }
+    void deallocate(T* p, std::size_t n) noexcept { verif_leaf_dealloc(id, 0, p, 1, n * sizeof(T), 16); }
+};
 using rec = rec_t<0>;
 using recB = rec_t<1>;
 using recC = rec_t<2>;
